@@ -15,7 +15,8 @@ TStep ==
      \/ Ev.ev = "deliver" /\ Deliver(Ev.c, Ev.p, Ev.pm, Ev.v)
      \/ Ev.ev = "deliver" /\ Dev_StaleSnapshot(Ev.c, Ev.p, Ev.pm, Ev.v, Ev.by)
      \/ Ev.ev = "deliver" /\ Dev_LateUpdate(Ev.c, Ev.p, Ev.pm, Ev.v, Ev.by)
-     \/ Ev.ev = "reply" /\ Reply(Ev.c, Ev.kind, Ev.scope, Ev.sm, ToSet(Ev.params))
+     \/ Ev.ev = "reply" /\ Ev.ok /\ Ev.valid /\ Reply(Ev.c, Ev.kind, Ev.scope, Ev.sm, ToSet(Ev.params))
+     \/ Ev.ev = "reply" /\ ~Ev.ok /\ ~Ev.valid /\ Ev.kind = "activate" /\ Refused(Ev.c, Ev.scope)
      \/ Ev.ev = "quiet" /\ Quiet(ToSet(Ev.params))
 TSpec == TInit /\ [][TStep]_<<avars, t, l>>
 Track == TLCSet(t, IF l > TLCGet(t) THEN l ELSE TLCGet(t))
